@@ -213,6 +213,9 @@ def judge(job):
                 # of the strict wildcard that admits it) is skipped silently
                 undeclared = {tuple(x["path"]) for x in nodes if x["decl"] == "none" and tuple(x["path"][:-1]) == p}
                 skipped = [k for k in werr if k[0] in undeclared and "not found" in k[1]]
+                # ... likewise the undeclared wrapper that a LAX wildcard admits (x:wrap): nothing inside it is assessed
+                wraps = {tuple(x["path"]) for x in nodes if x["name"] == "wrap" and tuple(x["path"][:-1]) == p}
+                skipped += [k for k in werr if any(k[0][:len(w)] == w and len(k[0]) > len(w) for w in wraps)]
                 fid = "F-C20-b" if skipped and perr == sorted(k for k in werr if k not in skipped) else None
                 out.append((rec, ver, xml, f"iter_errors(path={path!r}) = {perr}, whole-document errors below "
                             f"that element = {werr}", fid))
